@@ -27,6 +27,9 @@ def plan(tier, seed):
         specs.append({"klass": "random", "i": k, "fill": k >= 16, "n_comp": [1, 2, 3, 4][k % 4]})
     for k in range(16 if tier == "quick" else 200):
         specs.append({"klass": "repeated_helper_definition", "i": 5000 + k, "fill": k >= 6, "n_comp": [2, 3, 4][k % 3], "repeat_helper": True})
+    for k in range(16 if tier == "quick" else 200):
+        # a definition written twice in its component, same right-hand side, another trailing unit / remark (a legal repetition)
+        specs.append({"klass": "repeated_with_other_comment", "i": 6000 + k, "fill": k >= 6, "n_comp": [1, 2, 3][k % 3], "repeat_comment": True})
     for s in specs:
         s["prop"] = ID
         s.setdefault("soft_timeout", 200)
@@ -43,6 +46,11 @@ def run_case(spec, ctx):
         # a helper definition repeated verbatim in two components (accepted by the loader), used in both
         if models.repeat_helper(ms):
             cn["repeated_helper"] = 1
+    if spec.get("repeat_comment") and ms.assigns:
+        for _ in range(rng.choice([1, 2])):
+            n_, rhs_, comp_, tr_ = rng.choice(ms.assigns)
+            ms.assigns.insert(rng.randrange(len(ms.assigns) + 1), (n_, rhs_, comp_, rng.choice(["mV", "a remark, see the paper", "uA", "ms**-1"] if tr_ is None else ["another remark", "mV*2"])))
+        cn["repeated_with_other_comment"] = 1
     perms = list(textmut.permutations(ms, rng, n=8 if spec.get("tier") == "quick" else 20, split_declarations=spec["i"] % 3 == 1))
     base_text = perms[0][1]
     out["hash"] = models.structural_hash(base_text)
